@@ -2,7 +2,7 @@
    neighbourhood, so it is the orbit of the border-predecessor function; it closes before the fuel |V| runs out. *)
 From Coq Require Import ZArith List Bool Lia Relations.
 Import ListNotations.
-Require Import MV.Lib.Base MV.C15.Model MV.C15.ProofsBase.
+Require Import MV.Lib.Base MV.C15.Model MV.C15.ProofsBase MV.C15.GenFacts.
 Local Open Scope Z_scope.
 
 (* ------------------------------------------------------------------ generic list facts *)
@@ -111,12 +111,12 @@ Qed.
 (* the `for v in vertex_to_vertices(point2)` scan stops at entry 0: the test `v != point1` never matters *)
 Lemma next_border_step p2 : In p2 B -> next_border s (bsucc s p2) p2 = Some (bpred s p2).
 Proof.
-  intros Hp. unfold next_border, cyc_scan. destruct (vtv_hd p2 Hp) as [t E]. rewrite E. simpl find.
-  unfold cyc_accept.
-  assert (I : isb_at s (bpred s p2) = true) by (apply (wf_isb s W); now apply (wf_pred_in s W)).
-  rewrite I. simpl.
-  destruct (bpred s p2 =? bsucc s p2) eqn:Q; [|reflexivity].
-  apply Z.eqb_eq in Q. exfalso. now apply (wf_neq s W p2 Hp).
+  intros Hp. unfold next_border. rewrite gen_scan. destruct (vtv_hd p2 Hp) as [t E]. rewrite E. simpl find.
+  assert (A : cyc_accept (isb_at s (bpred s p2)) (bpred s p2) (bsucc s p2) p2 = true).
+  { apply gen_accept. split.
+    - apply (wf_isb s W). now apply (wf_pred_in s W).
+    - now apply (wf_neq s W). }
+  now rewrite A.
 Qed.
 
 Lemma walk_unfold start maxv f nvis p1 p2 :
@@ -137,6 +137,27 @@ Lemma walk_unfold start maxv f nvis p1 p2 :
   else Some ([], [], (p1, p2)).
 Proof. destruct f; reflexivity. Qed.
 
+Lemma walk_fresh start seen p1 :
+  chain seen -> hd 0 seen = start -> last seen 0 = p1 -> NoDup seen -> incl seen B ->
+  bpred s p1 <> start ->
+  ~ In (bpred s p1) seen /\ Z.of_nat (length seen) + 1 <= s_nV s.
+Proof.
+  intros Hc Hh Hl Hn Hi E. pose proof (chain_nonnil _ Hc) as NN.
+  assert (P1 : In p1 B) by (apply Hi; rewrite <- Hl; now apply last_In).
+  assert (P2 : In (bpred s p1) B) by now apply (wf_pred_in s W).
+  assert (NI : ~ In (bpred s p1) seen).
+  { intros I. destruct (chain_mem _ Hc _ I) as [y [Hy Ey]]; [congruence|].
+    assert (y = p1).
+    { apply (bpred_inj s W); [|exact P1 | now symmetry].
+      apply Hi. revert Hy. clear. induction seen as [|a [|b t] IHt]; simpl; intuition. }
+    subst y. rewrite <- Hl in Hy. now apply (NoDup_last_removelast seen 0 Hn NN). }
+  split; [exact NI|].
+  assert (ND : NoDup (seen ++ [bpred s p1])) by now apply NoDup_snoc.
+  assert (IN : incl (seen ++ [bpred s p1]) B) by (intros z Hz; apply in_app_iff in Hz as [Hz|[<-|[]]]; auto).
+  pose proof (NoDup_incl_length ND IN) as LEN. rewrite app_length in LEN. simpl in LEN.
+  pose proof (bverts_length s W) as BL. lia.
+Qed.
+
 Lemma walk_spec start : In start B ->
   forall f seen p1 nvis,
     chain seen -> hd 0 seen = start -> last seen 0 = p1 -> NoDup seen -> incl seen B ->
@@ -152,39 +173,37 @@ Proof.
   all: pose proof (chain_nonnil _ Hc) as NN.
   all: assert (P1 : In p1 B) by (apply Hi; rewrite <- Hl; now apply last_In).
   all: assert (P2 : In (bpred s p1) B) by now apply (wf_pred_in s W).
-  all: rewrite walk_unfold; unfold cyc_continue.
-  all: destruct (Z.eq_dec (bpred s p1) start) as [E|E].
-  1,3: rewrite E, Z.eqb_refl; simpl; exists [], p1; rewrite !app_nil_r; simpl;
-       repeat split; auto.
-  all: assert (NI : ~ In (bpred s p1) seen).
-  1,3: intros I; destruct (chain_mem _ Hc _ I) as [y [Hy Ey]]; [congruence|];
-       assert (y = p1) by (apply (bpred_inj s W);
-         [apply Hi; revert Hy; clear; induction seen as [|a [|b t] IHt]; simpl; intuition | exact P1 | now symmetry]);
-       subst y; rewrite <- Hl in Hy; now apply (NoDup_last_removelast seen 0 Hn NN).
-  all: assert (ND : NoDup (seen ++ [bpred s p1])) by now apply NoDup_snoc.
-  all: assert (IN : incl (seen ++ [bpred s p1]) B)
-         by (intros z Hz; apply in_app_iff in Hz as [Hz|[<-|[]]]; auto).
-  all: pose proof (NoDup_incl_length ND IN) as LEN; rewrite app_length in LEN; simpl in LEN.
-  all: pose proof (bverts_length s W) as BL.
-  - exfalso. lia.
-  - apply Z.eqb_neq in E. rewrite E. simpl negb. simpl andb.
-    assert (LT : (nvis <? s_nV s) = true) by (apply Z.ltb_lt; lia). rewrite LT.
-    assert (S1 : p1 = bsucc s (bpred s p1)) by (symmetry; now apply (wf_sp s W)).
+  all: rewrite walk_unfold.
+  all: destruct (cyc_continue (bpred s p1) start nvis (s_nV s)) eqn:CC.
+  - apply gen_continue in CC as [Ne Lt]. destruct (walk_fresh start seen p1 Hc Hh Hl Hn Hi Ne) as [_ LEN]. lia.
+  - assert (E : bpred s p1 = start).
+    { destruct (Z.eq_dec (bpred s p1) start) as [E|E]; [exact E|]. exfalso.
+      destruct (walk_fresh start seen p1 Hc Hh Hl Hn Hi E) as [_ LEN].
+      assert (T : cyc_continue (bpred s p1) start nvis (s_nV s) = true) by (apply gen_continue; split; [exact E | lia]).
+      congruence. }
+    rewrite E. exists [], p1. rewrite !app_nil_r. simpl. repeat split; auto.
+  - apply gen_continue in CC as [Ne Lt]. destruct (walk_fresh start seen p1 Hc Hh Hl Hn Hi Ne) as [NI LEN].
     assert (NB : next_border s p1 (bpred s p1) = Some (bpred s (bpred s p1))).
     { pose proof (next_border_step _ P2) as Q. rewrite (wf_sp s W p1 P1) in Q. exact Q. }
-    rewrite NB. unfold cyc_move, cyc_nvisited_step, cyc_emit_v, cyc_emit_e.
+    rewrite NB, gen_move, gen_step, gen_emit_v, gen_emit_e.
     destruct (IH (seen ++ [bpred s p1]) (bpred s p1) (nvis + 1)) as [vs [q1 [Hw [C1 [C2 [C3 [C4 C5]]]]]]].
     + now apply chain_snoc; [|rewrite Hl].
     + now rewrite hd_app.
     + apply last_snoc.
-    + exact ND.
-    + exact IN.
+    + now apply NoDup_snoc.
+    + intros z Hz. apply in_app_iff in Hz as [Hz|[<-|[]]]; auto.
     + rewrite app_length. simpl. lia.
     + rewrite app_length. simpl. lia.
     + rewrite Hw. exists (bpred s p1 :: vs), q1.
       rewrite <- app_assoc in C1, C2, C3, C4. simpl in C1, C2, C3, C4.
       repeat split; auto.
-      simpl. rewrite <- S1. reflexivity.
+      simpl. now rewrite (wf_sp s W p1 P1).
+  - assert (E : bpred s p1 = start).
+    { destruct (Z.eq_dec (bpred s p1) start) as [E|E]; [exact E|]. exfalso.
+      destruct (walk_fresh start seen p1 Hc Hh Hl Hn Hi E) as [_ LEN].
+      assert (T : cyc_continue (bpred s p1) start nvis (s_nV s) = true) by (apply gen_continue; split; [exact E | lia]).
+      congruence. }
+    rewrite E. exists [], p1. rewrite !app_nil_r. simpl. repeat split; auto.
 Qed.
 
 (* edges emitted along the walk, re-read as: the edge from each vertex to its border predecessor *)
@@ -210,10 +229,10 @@ Lemma cycle_ok start : In start B ->
 Proof.
   intros Hs. unfold extract_border_cycle.
   assert (L : (0 < length B)%nat) by (destruct B; [destruct Hs | simpl; lia]).
-  unfold cyc_no_border. destruct (Z.of_nat (length B) =? 0) eqn:E0; [apply Z.eqb_eq in E0; lia|].
-  unfold cyc_reject. rewrite (proj1 (wf_isb s W start) Hs). simpl negb. cbv iota.
-  destruct (vtv_hd start Hs) as [t Et]. unfold cyc_first_index, nth_z. simpl Z.ltb. cbv iota.
-  rewrite Et. simpl nth_error. unfold cyc_max_visited, cyc_nvisited0.
+  destruct (cyc_no_border (Z.of_nat (length B))) eqn:E0; [apply gen_no_border in E0; lia|].
+  rewrite gen_reject, (proj1 (wf_isb s W start) Hs). simpl negb. cbv iota.
+  destruct (vtv_hd start Hs) as [t Et]. rewrite gen_first_index. unfold nth_z. simpl Z.ltb. cbv iota.
+  rewrite Et. simpl nth_error. rewrite gen_max_visited, gen_nvisited0.
   destruct (walk_spec start Hs (S (Z.to_nat (s_nV s - 0))) [start] start 0) as [vs [q1 [Hw [C1 [C2 [C3 [C4 C5]]]]]]].
   - constructor.
   - reflexivity.
@@ -225,27 +244,31 @@ Proof.
   - change (0 <? 0) with false. cbv iota. rewrite Hw. exists (start :: vs). eexists. split; [reflexivity|].
     simpl app in *. unfold is_cycle. repeat split; auto.
     + now rewrite <- C4.
-    + unfold cyc_last_e. rewrite <- (edges_along start vs C1 C3). rewrite <- C4. now rewrite C5.
+    + rewrite gen_last_e. rewrite <- (edges_along start vs C1 C3). rewrite <- C4. now rewrite C5.
 Qed.
 
 (* the other outcomes *)
 Lemma cycle_no_border o : B = [] -> extract_border_cycle s o = Outcome CycEmpty.
-Proof. intros E. unfold extract_border_cycle. rewrite E. reflexivity. Qed.
+Proof.
+  intros E. unfold extract_border_cycle. rewrite E.
+  assert (T : cyc_no_border (Z.of_nat (length (@nil Z))) = true) by now apply gen_no_border.
+  now rewrite T.
+Qed.
 
 Lemma cycle_not_on_border start : B <> [] -> ~ In start B ->
   extract_border_cycle s (Some start) = Outcome CycNotOnBorder.
 Proof.
-  intros N H. unfold extract_border_cycle, cyc_no_border.
-  destruct (Z.of_nat (length B) =? 0) eqn:E0.
-  - apply Z.eqb_eq in E0. destruct B; [congruence | simpl in E0; lia].
-  - unfold cyc_reject. destruct (isb_at s start) eqn:I; [|reflexivity].
+  intros N H. unfold extract_border_cycle.
+  destruct (cyc_no_border (Z.of_nat (length B))) eqn:E0.
+  - apply gen_no_border in E0. destruct B; [congruence | simpl in E0; lia].
+  - rewrite gen_reject. destruct (isb_at s start) eqn:I; [|reflexivity].
     exfalso. apply H. now apply (wf_isb s W).
 Qed.
 
 Lemma cycle_default : B <> [] ->
   extract_border_cycle s None = extract_border_cycle s (Some (hd 0 B)).
 Proof.
-  intros N. unfold extract_border_cycle, cyc_default_index, nth_z. simpl Z.ltb. cbv iota.
+  intros N. unfold extract_border_cycle. rewrite gen_default_index. unfold nth_z. simpl Z.ltb. cbv iota.
   destruct B as [|b t]; [congruence|]. reflexivity.
 Qed.
 
